@@ -5,6 +5,7 @@ import (
 	"go/constant"
 	"go/token"
 	"go/types"
+	"strings"
 )
 
 func constOf(info *types.Info, e ast.Expr) (constant.Value, bool) {
@@ -186,10 +187,24 @@ func nonNilErrExpr(info *types.Info, e ast.Expr) bool {
 			return true
 		}
 	case *ast.CallExpr:
+		// conversion to a concrete (non-interface, non-pointer) error type: T(x)
+		if _, ok := isConversion(info, x); ok {
+			if tv, ok := info.Types[x.Fun]; ok {
+				switch tv.Type.Underlying().(type) {
+				case *types.Interface, *types.Pointer:
+				default:
+					return true
+				}
+			}
+		}
 		fn := Callee(info, x)
 		if fn != nil && fn.Pkg() != nil {
 			p, n := fn.Pkg().Path(), fn.Name()
 			if (p == "errors" && n == "New") || (p == "fmt" && n == "Errorf") {
+				return true
+			}
+			// constructor functions of this module that return a concrete error value: new*Error
+			if strings.HasPrefix(n, "new") && strings.HasSuffix(n, "Error") {
 				return true
 			}
 		}
